@@ -143,6 +143,19 @@ CLAIMS = {
         "technique": "TLA+ path-based criteria and truncated factorisation; TLC-enumerated cases replayed on the code",
         "design_ref": "6/C13",
     },
+    "C07": {
+        "text": ("Ancestral sampling is specified per row: node n of a row is drawn from exactly the CPD column of the row's sampled parent states "
+                 "(spec/Trace_C07.tla over BNLib). Runs of forward_sample, rejection_sample and likelihood_weighted_sample are recorded with a "
+                 "harness-side wrapper around sample_discrete/sample_discrete_maps (the weight vectors handed to numpy.random.choice) joined "
+                 "with the returned frame; TLC checks: every (parent assignment, weight vector) pair is the exact CPD column; every sampled "
+                 "value is a state name of positive probability; exact row count; latent columns only on request; rejection/LW rows agree with "
+                 "the evidence; the likelihood weight is the exact product of the evidence variables' CPD entries given the row; same seed => "
+                 "identical frame; every Gibbs transition kernel entry equals the full conditional of the joint; a 6-sigma integer frequency "
+                 "bound per kernel as backstop."),
+        "note": "numpy's generator is trusted to draw from the p it is given; <=5 nodes, card<=3, zero entries and latent sets included; simulate() wrappers and the torch backend not yet covered.",
+        "technique": "TLA+ per-row sampling specification; recorded sampler runs (kernels + frames) validated by TLC",
+        "design_ref": "6/C07",
+    },
 }
 
 NOT_APPLICABLE = {}
